@@ -14,7 +14,7 @@ ID = "C07"
 LEVEL = "exploration"
 RULE = (
     "case = (request helper or send_message, integer error code, error shape: message text or absent, data absent or any JSON, delivered as the unified or the typed error class, "
-    "alone or with a concurrent request on the same connection that dequeues the error first); "
+    "alone or with a concurrent request on the same connection that dequeues the error first; send_message also with an untriggered cancellation token and/or a progress callback); "
     "codes enumerated exhaustively over -33100..-31900 and -200..200 for every discovered helper, plus Hypothesis-drawn signed/unsigned "
     "64-bit codes and error shapes; oracle = pinned documented permanent-code set; non-trivial = code is not one of the named constants, "
     "or data present, or message absent; distinct = distinct (helper, code, shape)"
@@ -62,9 +62,22 @@ def check(case: Dict[str, Any]) -> Outcome:
     from chuk_mcp.protocol.messages.send_message import send_message
     from chuk_mcp.protocol.types.errors import NonRetryableError, RetryableError, VersionMismatchError, is_retryable_error
 
+    opts = case.get("opts", [])
     if target == "send_message":
         async def call(r, w):
-            return await send_message(r, w, "x/y", {"a": 1}, timeout=2.0)
+            kw: Dict[str, Any] = {}
+            if "token" in opts:
+                from chuk_mcp.protocol.messages.send_message import CancellationToken
+
+                kw["cancellation_token"] = CancellationToken()  # present, never triggered
+            if "progress" in opts:
+                async def on_progress(progress, total, message):
+                    return None
+
+                kw["progress_callback"] = on_progress
+            if "retries" in opts:
+                kw["retries"] = 1
+            return await send_message(r, w, "x/y", {"a": 1}, timeout=2.0, **kw)
     else:
         fn = helpers()[target]
         kwargs = synth_args(target, fn)
@@ -112,7 +125,7 @@ def check(case: Dict[str, Any]) -> Outcome:
         "data" if has_data else "nodata",
         "nomessage" if msg is None else "message",
         "bool-helper" if target in BOOL_HELPERS else "raising-helper",
-    ) + (("typed-class",) if case.get("typed") and msg is not None else ()) + (("peer-waiter",) if peer else ())
+    ) + (("typed-class",) if case.get("typed") and msg is not None else ()) + (("peer-waiter",) if peer else ()) + tuple("opt:" + o for o in opts if target == "send_message")
 
     r = is_retryable_error(code)
     if not isinstance(r, bool):
@@ -189,6 +202,10 @@ def job_enum(col: Collector, seed: int, tier: str, shard: int, nshards: int) -> 
             for sh in shapes:
                 case = {"target": target, "code": code, **sh}
                 col.record(case, check(case))
+            if code in NAMED and target == "send_message":
+                for opts_ in (["token"], ["progress"], ["token", "progress"]):
+                    case = {"target": target, "code": code, "message": f"m{code}", "opts": opts_}
+                    col.record(case, check(case))
             if code in NAMED:
                 for typed_, peer_ in ((True, False), (False, True), (True, True)):
                     case = {"target": target, "code": code, "message": f"m{code}", "typed": typed_, "peer": peer_}
@@ -217,6 +234,8 @@ def cases(draw):
         case["typed"] = True
     if draw(st.integers(0, 3)) == 0:
         case["peer"] = True
+    if target == "send_message" and draw(st.booleans()):
+        case["opts"] = draw(st.lists(st.sampled_from(["token", "progress"]), min_size=1, max_size=2, unique=True))
     return case
 
 
